@@ -43,7 +43,9 @@ fn read_records(records: &[ihex::Record]) -> u8 {
                 if eof {
                     return V_DATA_AFTER_EOF;
                 }
-                if value.is_empty() || value.len() > 255 {
+                // an empty data record is legal Intel HEX (it carries nothing); more than 255
+                // bytes cannot be expressed in the length field
+                if value.len() > 255 {
                     return V_EMPTY_OR_LONG;
                 }
                 let mut j = 0;
@@ -101,7 +103,7 @@ fn read_records_big(records: &[ihex::Record]) -> u8 {
                 if eof {
                     return V_DATA_AFTER_EOF;
                 }
-                if value.is_empty() || value.len() > 255 {
+                if value.len() > 255 {
                     return V_EMPTY_OR_LONG;
                 }
                 let addr = base as u64 + *offset as u64;
